@@ -169,6 +169,11 @@ def run(ctx) -> None:
         loops = [n for n in walk_local(g_.node) if isinstance(n, ast.For)]
         calls = [c for c in db.calls_in(g_) if "_maybe_clone_broadcast" in call_names(db, c, g_)]
         ok = bool(calls) and all(any(contains(lp, c) for lp in loops) for c in calls)
+        # ... for every item: the yielded mapping unpacks the clone helper's result itself, not a conditional that hands
+        # some item (the last, the only one) the caller's own broadcast objects
+        cond = [c for c in calls if isinstance(getattr(c, "_parent", None), ast.IfExp) or any(isinstance(a, ast.If) for a in ancestors(c) if any(contains(lp, a) for lp in loops))]
+        raw = [x for y in walk_local(g_.node) if isinstance(y, (ast.Yield, ast.Return)) and isinstance(y.value, ast.Dict) for k_, x in zip(y.value.keys, y.value.values) if k_ is None and not (isinstance(x, ast.Call) and "_maybe_clone_broadcast" in call_names(db, x, g_)) and any(isinstance(z, ast.Name) and z.id in g_.param_names and z.id != g_.positional_params[0] for z in ast.walk(x) if not isinstance(x, ast.DictComp))]
+        rep.add("C10.R6", f"{g_.qname}:every-item-cloned", ok and not cond and not raw, g_.loc(), "every item's broadcast values come out of the clone helper" if ok and not cond and not raw else f"an item can receive the caller's own broadcast values ('{src((cond or raw)[0])[:60]}' is conditional / unpacks them directly): that item mutates the caller's object, so a later map over the same object clones an already-dirty value and its entries differ from single runs")
         rep.add("C10.R6", f"{g_.qname}:cloned-per-item", ok, g_.loc(), "broadcast values are cloned inside the per-item loop (a fresh copy for every item)" if ok else "broadcast values are cloned once outside the per-item loop: all items share one copy")
     # the names in clone=[...] reach the nested map in the inner graph's name space (the broadcast dict the clone
     # helper matches them against is keyed by the inner graph's own input names): qualifier inference over the
